@@ -30,6 +30,7 @@ Plan gen_c14(sk::Rng& r, Tier tier) {
     p.knobs["preempt"] = r.pick<std::int64_t>({64, 256, 512});
     p.knobs["short_io"] = r.pick<std::int64_t>({0, 128, 512});
     p.knobs["tick_ms"] = r.pick<std::int64_t>({200, 1000});
+    p.knobs["deschedule"] = r.pick<std::int64_t>({0, 0, 40, 300});   // long preemptions of arbitrary threads (senders, readers, tick)
     const bool faulty = r.chance(1, 3);
     p.knobs["faulty"] = faulty;
     const int n = static_cast<int>(r.range(2, tier == Tier::Quick ? 6 : 10));
@@ -60,6 +61,7 @@ sk::Knobs knobs_c14(const Plan& p) {
     k.lat_max_ns = p.knob("lat_max_us", 2000) * 1000;
     k.preempt_per_1024 = static_cast<std::uint32_t>(p.knob("preempt", 256));
     k.short_io_per_1024 = static_cast<std::uint32_t>(p.knob("short_io", 128));
+    k.deschedule_per_65536 = static_cast<std::uint32_t>(p.knob("deschedule", 0));
     k.max_steps = 6'000'000;
     return k;
 }
